@@ -2,6 +2,7 @@ CONSTANTS
   Model = "univ"
   MaxSteps = 3
   Hist = FALSE
+  AllowDie = FALSE
   TransOnlyAsserted = TRUE
   TransOutOnly = FALSE
   NoInverseOfInferred = FALSE
